@@ -25,6 +25,8 @@ EXTENDS Integers, FiniteSets, TLC
 CONSTANTS Conns, MaxReq, NoConn,
           Listeners,         \* listeners of the one Server, each served by its own Serve call
           CloseOnShutdown,   \* Server.CloseOnShutdown
+          Mixed,             \* connections also arrive through ServeConn, and both entry points may turn a connection
+                             \* away for Server.Concurrency
           ReduceMem,         \* Server.ReduceMemoryUsage: reader, writer and ctx are given back between requests (the first
                              \* byte is awaited by acquireByteReader), so every response is flushed at once
           FlushOnStop,       \* the loop flushes buffered responses before leaving on stop
@@ -109,6 +111,26 @@ AcceptCount(l) ==
   /\ ph' = [ph EXCEPT ![accepting[l]] = "queued"]
   /\ accepting' = [accepting EXCEPT ![l] = NoConn]
   /\ UNCHANGED <<svars, serveRunning, mark, inmap, netClosed, cclosed, tout, wire, buf, sent, nstart, unflushed, delivered, lost>>
+
+\* wp.Serve found no worker: open-- ; 503 ; close
+ServeReject(c) ==
+  /\ ph[c] = "queued"
+  /\ open' = open - 1
+  /\ ph' = [ph EXCEPT ![c] = "exited"] /\ netClosed' = [netClosed EXCEPT ![c] = TRUE]
+  /\ UNCHANGED <<svars, serveRunning, accepting, mark, inmap, cclosed, tout, wire, buf, sent, nstart, unflushed, delivered, lost>>
+
+(* ServeConn(c): tryAcquireConcurrency ; rejected: 503, close - s.open was never touched ;
+   admitted: open++ and the same connection loop as on the Serve path *)
+ScAdmit(c) ==
+  /\ ph[c] = "none"
+  /\ open' = open + 1
+  /\ ph' = [ph EXCEPT ![c] = "queued"]
+  /\ UNCHANGED <<svars, serveRunning, accepting, mark, inmap, netClosed, cclosed, tout, wire, buf, sent, nstart, unflushed, delivered, lost>>
+
+ScReject(c) ==
+  /\ ph[c] = "none"
+  /\ ph' = [ph EXCEPT ![c] = "exited"] /\ netClosed' = [netClosed EXCEPT ![c] = TRUE]
+  /\ UNCHANGED <<svars, serveRunning, accepting, open, mark, inmap, cclosed, tout, wire, buf, sent, nstart, unflushed, delivered, lost>>
 
 \* Accept fails on the closed listener: Serve returns (deferred open--)
 ServeReturnL(l) ==
@@ -360,6 +382,7 @@ ShutdownStep == \/ SetStop \/ CloseListeners \/ CloseDone \/ ScanBegin \/ (\E c 
 Next ==
   \/ \E c \in Conns : ClientSend(c, 1) \/ ClientSend(c, 2) \/ ClientClose(c) \/ Age(c) \/ ConnStep(c)
                       \/ \E l \in Listeners : AcceptTakeMC(l, c)
+                      \/ (Mixed /\ sd # "returned" /\ (ScAdmit(c) \/ ScReject(c) \/ ServeReject(c)))
   \/ \E l \in Listeners : AcceptCount(l) \/ ServeReturn(l)
   \/ ShutdownStep \/ ServeAgain
 
